@@ -1859,7 +1859,7 @@ class BaseSQL(
 
         p[0] = {}
 
-        if isinstance(p_list[2], str) and "CLUSTERED" == p_list[2]:
+        if isinstance(p_list[2], str) and "CLUSTERED" == p_list[2].upper():
             order = None
             column = None
             for item in p_list[-1]:
